@@ -581,6 +581,8 @@ class FromPandasDivisions(FromPandas):
             data = self.frame._data
             if data.index.is_unique:
                 indexer = data.index.get_indexer(key, method="bfill")
+                # no label at or after this division
+                indexer[indexer < 0] = len(data)
             else:
                 # get_indexer doesn't support method
                 indexer = np.searchsorted(data.index.values, key, side="left")
